@@ -806,7 +806,7 @@ func TestC13(t *testing.T) {
 	if explicit {
 		return
 	}
-	vcore.Check(t, vcore.N(300, 1200), func(rt *rapid.T) {
+	vcore.Check(t, vcore.N(300, 3000), func(rt *rapid.T) {
 		c := gen(rt)
 		v, s := run(c)
 		account(c, s)
